@@ -171,6 +171,7 @@ Proof.
     destruct lp'; inversion E; subst; clear E; cbn [lk set_lk]; split; try reflexivity;
       try (cbn [res_inv alock]; swap_with HI').
     - eapply lcont_inv. exact HI'.
+    - apply (lcont_inv _ _ _ _ _ _ []). eapply inv_swap; [ | | exact HI']; reflexivity.
     - cbn [res_inv]. eapply inv_no_crashed. exact HI'. }
   all: cbn [alock amode] in HI;
     try match goal with b : bool |- _ => destruct b end;
